@@ -152,9 +152,11 @@ def lean_sources_of(modules):
     return seen
 
 
-def audit(prop: str, required: list[str]):
+def audit(prop: str, required: list[str], extra_modules=(), extra_targets=()):
     """Build the property's proofs and audit axioms.
 
+    `extra_modules`: further proof modules whose theorems the property relies on (imported by the audit file, their
+    sources scanned for forbidden tokens); `extra_targets`: further lake targets (drivers) the check uses.
     Returns dict(obligations, discharged, failed=[(name, why)], theorems=[...], log, build_ok)."""
     mod = f"JoblibProofs.{prop}"
     res = dict(obligations=0, discharged=0, failed=[], theorems=[], log="", build_ok=False, axioms={})
@@ -163,7 +165,7 @@ def audit(prop: str, required: list[str]):
         res["failed"].append((mod, "property file missing"))
         res["obligations"] = max(1, len(required))
         return res
-    ok, log = lake_build([mod, f"drv_{prop.lower()}"])
+    ok, log = lake_build([mod, f"drv_{prop.lower()}", *extra_modules, *extra_targets])
     res["log"] = log[-6000:]
     res["build_ok"] = ok
     names = theorem_names(pf)
@@ -177,11 +179,12 @@ def audit(prop: str, required: list[str]):
         errs = re.findall(r"error: (\S+?:\d+:\d+: .*)", log)
         res["failed"] = [(n, "build failed: " + "; ".join(errs[:3])) for n in names]
         return res
-    srcs = lean_sources_of([mod, f"Driver.{prop}"])
+    srcs = lean_sources_of([mod, f"Driver.{prop}", *extra_modules])
     hits = forbidden_hits(srcs.values())
     with tempfile.TemporaryDirectory(prefix="verif-audit-") as td:
         af = Path(td) / "Audit.lean"
-        af.write_text(f"import {mod}\n" + "".join(f"#print axioms {n}\n" for n in names))
+        af.write_text(f"import {mod}\n" + "".join(f"import {m}\n" for m in extra_modules)
+                      + "".join(f"#print axioms {n}\n" for n in names))
         p = subprocess.run(["lake", "env", "lean", str(af)], cwd=LEAN, capture_output=True, text=True, timeout=900)
     out = p.stdout + p.stderr
     res["log"] += "\n" + out[-3000:]
@@ -348,7 +351,8 @@ def run_check(prop: str, mod, tier: str, seed: int, replay_path: str | None):
             # e.g. regenerate lean/JoblibModel/Generated/Tables.lean from the live VERIF_REPO objects, so that the
             # table-level theorems are re-proved against what the code says now
             mod.prepare(ctx)
-        proof = audit(prop, list(getattr(mod, "REQUIRED_THEOREMS", [])))
+        proof = audit(prop, list(getattr(mod, "REQUIRED_THEOREMS", [])), tuple(getattr(mod, "EXTRA_LEAN_MODULES", ())),
+                      tuple(getattr(mod, "EXTRA_LEAN_TARGETS", ())))
         try:
             res: Result = mod.run(ctx)
         except InfraError:
